@@ -424,68 +424,82 @@ Definition validate_delete (ps : list pointer) (sp ep : Z) (so eo : Z) : bool * 
         if (ep <? sp) && (negb (sp =? ep + 1) || negb (so =? 0) || negb (eo =? 0))
         then (false, true, so, eo)
         else if (sp =? ep) && (sl <? so + eo) then (false, true, so, eo)
-        else if ((sp =? ep - 1) && (so =? el) && (eo =? el)) || ((sp =? ep) && (so + eo =? sl))
+        else if ((sp =? ep - 1) && (so =? sl) && (eo =? el)) || ((sp =? ep) && (so + eo =? sl))
         then (false, false, so, eo)
         else (true, false, so, eo)
     | _, _ => (false, true, so, eo)   (* index out of range: unreachable from [delete] *)
     end.
 
-(* func (db *DB) Delete(ctx, tr, calculateStartOffset, calculateEndOffset) error *)
+(* func (db *DB) Delete(ctx, tr, calculateStartOffset, calculateEndOffset) error,
+   in the three stages of the Go function.  A stage yields
+     inr r          the call returns r at this point,
+     inl None       "delete nothing": the call returns nil,
+     inl (Some (position, pointer, offset, adjusted bound)). *)
+Definition del_part : Type := option (Z * pointer * Z * Z) + res.
+
+(* start position: the domain containing tr.Start, else the first domain after it *)
+Definition delete_start (rs : resolver) (ps : list pointer) (a : Z) : del_part :=
+  let '(sd0, exact) := usearch ps (ts_span_range a 0) in
+  if exact then
+    match getp ps sd0 with
+    | Some s => match rs (p_start s) a with
+                | Some (so, a') => inl (Some (sd0, s, so, a'))
+                | None => inr (RErr EOther)
+                end
+    | None => inr (RErr EOther)            (* unreachable *)
+    end
+  else
+    let sd := sd0 + 1 in
+    if sd =? zlen ps then inl None          (* delete nothing *)
+    else match getp ps sd with
+         | Some s => inl (Some (sd, s, 0, p_start s))
+         | None => inr (RErr EOther)        (* unreachable *)
+         end.
+
+(* end position: the domain containing tr.End, else the last domain before it;
+   endOffset = end.size - calculateEndOffset(...) *)
+Definition delete_end (re : resolver) (ps : list pointer) (b : Z) : del_part :=
+  let '(ed0, exact) := usearch ps (ts_span_range b 0) in
+  if exact then
+    match getp ps ed0 with
+    | Some e => match re (p_start e) b with
+                | Some (eo, b') => inl (Some (ed0, e, Z.of_N (p_size e) - eo, b'))
+                | None => inr (RErr EOther)
+                end
+    | None => inr (RErr EOther)             (* unreachable *)
+    end
+  else if ed0 =? -1 then inl None           (* delete nothing *)
+  else match getp ps ed0 with
+       | Some e => inl (Some (ed0, e, 0, p_end e))
+       | None => inr (RErr EOther)          (* unreachable *)
+       end.
+
+(* validateDelete, removal of pointers[sd..ed], insertion of the (at most two) partial
+   pointers at sd *)
+Definition delete_apply (ps : list pointer) (sd : Z) (s : pointer) (so a' : Z)
+                        (ed : Z) (e : pointer) (eo b' : Z) : list pointer * res :=
+  let '(ok, is_err, so, eo) := validate_delete ps sd ed so eo in
+  if negb ok then (ps, if is_err then RErr EOther else ROk)
+  else
+    let kept := firstn (Z.to_nat sd) ps ++ skipn (Z.to_nat (ed + 1)) ps in
+    let new_s :=
+      if so =? 0 then []
+      else [mkPtr (mkTR (p_start s) a') (p_file s) (p_off s) (u32z so)] in
+    let new_e :=
+      if eo =? 0 then []
+      else [mkPtr (mkTR b' (p_end e)) (p_file e)
+                  (u32_sub (u32 (p_off e + p_size e)) (u32z eo)) (u32z eo)] in
+    (firstn (Z.to_nat sd) kept ++ new_s ++ new_e ++ skipn (Z.to_nat sd) kept, ROk).
+
 Definition delete (rs re : resolver) (ps : list pointer) (a b : Z) : list pointer * res :=
-  (* start position: first domain containing or after tr.Start *)
-  let '(sd0, exact_s) := usearch ps (ts_span_range a 0) in
-  let start_part : option (Z * pointer * Z * Z) + res :=
-    if exact_s then
-      match getp ps sd0 with
-      | Some s => match rs (p_start s) a with
-                  | Some (so, a') => inl (Some (sd0, s, so, a'))
-                  | None => inr (RErr EOther)
-                  end
-      | None => inr (RErr EOther)            (* unreachable *)
-      end
-    else
-      let sd := sd0 + 1 in
-      if sd =? zlen ps then inl None          (* delete nothing *)
-      else match getp ps sd with
-           | Some s => inl (Some (sd, s, 0, p_start s))
-           | None => inr (RErr EOther)        (* unreachable *)
-           end in
-  match start_part with
+  match delete_start rs ps a with
   | inr r => (ps, r)
   | inl None => (ps, ROk)
   | inl (Some (sd, s, so, a')) =>
-      (* end position: last domain containing or before tr.End *)
-      let '(ed0, exact_e) := usearch ps (ts_span_range b 0) in
-      let end_part : option (Z * pointer * Z * Z) + res :=
-        if exact_e then
-          match getp ps ed0 with
-          | Some e => match re (p_start e) b with
-                      | Some (eo, b') => inl (Some (ed0, e, Z.of_N (p_size e) - eo, b'))
-                      | None => inr (RErr EOther)
-                      end
-          | None => inr (RErr EOther)         (* unreachable *)
-          end
-        else if ed0 =? -1 then inl None       (* delete nothing *)
-        else match getp ps ed0 with
-             | Some e => inl (Some (ed0, e, 0, p_end e))
-             | None => inr (RErr EOther)      (* unreachable *)
-             end in
-      match end_part with
+      match delete_end re ps b with
       | inr r => (ps, r)
       | inl None => (ps, ROk)
-      | inl (Some (ed, e, eo, b')) =>
-          let '(ok, is_err, so, eo) := validate_delete ps sd ed so eo in
-          if negb ok then (ps, if is_err then RErr EOther else ROk)
-          else
-            let kept := firstn (Z.to_nat sd) ps ++ skipn (Z.to_nat (ed + 1)) ps in
-            let new_s :=
-              if so =? 0 then []
-              else [mkPtr (mkTR (p_start s) a') (p_file s) (p_off s) (u32z so)] in
-            let new_e :=
-              if eo =? 0 then []
-              else [mkPtr (mkTR b' (p_end e)) (p_file e)
-                          (u32_sub (u32 (p_off e + p_size e)) (u32z eo)) (u32z eo)] in
-            (firstn (Z.to_nat sd) kept ++ new_s ++ new_e ++ skipn (Z.to_nat sd) kept, ROk)
+      | inl (Some (ed, e, eo, b')) => delete_apply ps sd s so a' ed e eo b'
       end
   end.
 
